@@ -341,6 +341,25 @@ class C12(CheckBase):
                     op.fed += n; op.out += out; op.updated = True; op.fed_calls += 1
             elif st == "failed":
                 m.op = None
+            elif st == "unchanged" and k0 == "single" and not op.updated and a[2] != "query":
+                # the call answered CKR_BUFFER_TOO_SMALL: the statement says the operation is unchanged, so the SAME single-part call with the reported
+                # length must now do what a clean run does (throw-away snapshot)
+                d1 = ctx.sh.depth
+                ctx.sh.snap(copy=False)
+                try:
+                    base = "C_%s s=%d in=x%s" % (cname, m.s, data.hex())
+                    q = p.call(base + " out=n0")
+                    r = p.call(base + " out=b%d" % q.get("len", 0)) if q["rv"] == 0 else q
+                    ctx.count("single_part_retries_after_too_small")
+                    if r["rv"] != 0:
+                        ref = self.clean(ctx, m, op.name, kind, data)
+                        if ref["rv"] == 0:
+                            raise Violation("C12|%s|%s|retry-after-buffer-too-small-fails-although-clean-run-succeeds|%s" % (op.name, cname, a[2]),
+                                            {"rv": r["rv"], "query_rv": q["rv"], "after": a})
+                    else:
+                        self.judge_complete(ctx, m, op, kind, data if kind == "Decrypt" else pat(0, op.fed) + data, bytes.fromhex(r.get("out", ""))[:r["len"]], ("retry",) + tuple(a))
+                finally:
+                    ctx.sh.unwind(d1)
             self.state_checks(ctx, m, a)
             return m
         if k0 == "final":
